@@ -166,7 +166,7 @@ func FieldStored(fn *ssa.Function, tname, name string) bool {
 		if st, ok := in.(*ssa.Store); ok {
 			if fa, ok := st.Addr.(*ssa.FieldAddr); ok {
 				r := FieldAddrRef(fa)
-				if r.Name == name && (tname == "" || (r.Struct != nil && r.Struct.Obj().Name() == tname)) {
+				if r.Name == name && (tname == "" || (r.Struct != nil && StructName(r.Struct) == tname)) {
 					found = true
 				}
 			}
